@@ -542,12 +542,18 @@ package jsonpatch
 //@   ensures[C01] root-kept: *pd == old(*pd)
 //@   ensures[C04] root-ok: conOK(*pd)
 //@   ensures[C08] attrs: !isTestFailed(err) && !isCopyLimit(err) && !isMissing(err)
+//@   callsite[C14] get#1 lookup-uses-decoded-token: arg_key == unescape(part)
+//@   callsite[C14] add#2 array-stored-under-decoded-token: arg_key == unescape(part)
+//@   callsite[C14] add#4 object-stored-under-decoded-token: arg_key == unescape(part)
+//@   callsite[C14] add#1 padding-appends: arg_key == itoa(i)
+//@   callsite[C14] add#3 new-array-padding-appends: arg_key == itoa(i)
 //@   loop 1
 //@   invariant container: conOK(doc) && conOK(*pd) && *pd == old(*pd)
 //@   loop 2
 //@   invariant container: conOK(doc) && conOK(*pd) && *pd == old(*pd)
 //@   loop 3
 //@   invariant container: conOK(doc) && conOK(*pd) && *pd == old(*pd)
+//@   invariant[C14] pad-count: arrIndex == padCount(parts[pi + 1])
 
 // ---- Apply ----
 
